@@ -110,3 +110,22 @@ CHECKS["C07"] = {
     "outside": ["wall-clock promptness", "OS-level removal semantics", "more than two pending requests"],
     "runs": [c07run("conc.close.ll", 3, 0, 2, 4), c07run("conc.close.fmp4.disk", 2, 1, 3, 4), c07run("conc.close.ts.disk", 1, 1, 2, 4)],
 }
+
+S = "storage/"
+CHECKS["C17"] = {
+    "technique": "differential harness: RAM backend vs disk backend (on an in-harness file system) vs a byte-slice model under one symbolic operation sequence",
+    "bounds": {"quick": {"parts": "0..2", "operations": "2 on the first part, 1 on later parts, from {Write(0..2 arbitrary bytes), Seek(off in [-2,4], start|current)}", "read buffer sizes": "1..3 (0 for the zero-length read)"},
+               "thorough": {"parts": "0..2", "operations": "3 on one part / 2+2 on two parts, Write(0..3 bytes), Seek(off in [-4,8])", "read buffer sizes": "1..5"}},
+    "assumptions": ["os.Create/Open/Remove and *os.File.{WriteAt,Write,Read,Seek,Truncate,Close} replaced by an in-harness POSIX-like file system (sparse writes zero-filled, short reads at EOF, unlink keeps open handles)",
+                    "one Writer() per part, parts written in allocation order (how every caller in the repository uses the package)",
+                    "a trailing forward seek without a following write may or may not count as written zeros, but every observation of a backend must follow one reading and both backends the same one",
+                    "seekablebuffer / bytes.Buffer / io.LimitedReader / io.OffsetWriter interpreted from source"],
+    "outside": ["read buffers larger than 5 bytes", "real OS semantics (page cache, permissions)", "Seek relative to the end (not supported by the disk writer)"],
+    "runs": [
+        {"name": "run.storage.equiv", "dir": "pkg/storage", "files": [S + "c17_storage.go", "rt/fs_model.go"], "fn": "VerifH_C17_storage", "workers": 16,
+         "params_quick": {"MAXPARTS": 2, "OPS": 2, "OPS2": 1, "MAXW": 2, "MAXBUF": 2}, "params_thorough": {"MAXPARTS": 1, "OPS": 3, "MAXW": 3, "MAXBUF": 4, "OFFNEG": 4, "OFFPOS": 8},
+         "reach": ["end"], "budget_quick": 900, "budget_thorough": 7200},
+        {"name": "run.storage.equiv.2parts", "dir": "pkg/storage", "files": [S + "c17_storage.go", "rt/fs_model.go"], "fn": "VerifH_C17_storage", "workers": 16, "thorough_only": True,
+         "params_thorough": {"MAXPARTS": 2, "OPS": 2, "OPS2": 2, "MAXW": 2, "MAXBUF": 1}, "reach": ["end"], "budget_thorough": 7200},
+    ],
+}
